@@ -94,17 +94,50 @@ fn rec_over_parameter(sources: &Sources) -> bool {
 }
 
 /// Structural precondition of the known finding F19: the rewrites introduced a parameterless
-/// declaration that is recursive in the rewritten program and whose body is an annotated terminal.
+/// declaration that is recursive in the rewritten program (so its uses are `$ref`s where the
+/// original had the value inline) and annotations are in play at its value or at its uses: the
+/// value may carry annotations written on its right-hand side (body head annotated, an
+/// application or another name), or a use is annotated, passed as an argument or aliased (a `$ref`
+/// cannot carry the description / title / required that the inline value would get there).
 fn f19_site(before: &Program, after: &Program) -> bool {
     let fresh_from = before.binders.len();
     let recursive = analyse_cycles(after).recursive;
-    after.decls().any(|(_, d)| {
-        let mut body = &d.body;
-        while let E::Paren(inner) = body {
-            body = inner;
+    let fresh: Vec<Bid> = after.decls().filter(|(_, d)| d.params.is_empty() && d.id >= fresh_from && recursive.contains(&d.id)).map(|(_, d)| d.id).collect();
+    if fresh.is_empty() {
+        return false;
+    }
+    fn peel(e: &E) -> &E {
+        match e {
+            E::Paren(i) => peel(i),
+            other => other,
         }
-        d.params.is_empty() && recursive.contains(&d.id) && matches!(body, E::Ann(..)) && d.id >= fresh_from
-    })
+    }
+    let is_fresh = |e: &E| matches!(peel(e), E::Var(v) if v.binder.map_or(false, |b| fresh.contains(&b)));
+    let mut hit = false;
+    for (_, d) in after.decls() {
+        if fresh.contains(&d.id) && matches!(peel(&d.body), E::Ann(..) | E::App(..) | E::Var(..)) {
+            hit = true;
+        }
+        // An alias of the fresh declaration.
+        if is_fresh(&d.body) {
+            hit = true;
+        }
+    }
+    let mut look = |e: &E| match e {
+        E::Ann(_, _, inner) if is_fresh(inner) => hit = true,
+        E::App(_, args) if args.iter().any(|a| is_fresh(a)) => hit = true,
+        _ => {}
+    };
+    for m in &after.modules {
+        for st in &m.stmts {
+            match st {
+                Stmt::Let(d) => d.body.visit(&mut look),
+                Stmt::Res(e) => e.visit(&mut look),
+                Stmt::Use(_) => {}
+            }
+        }
+    }
+    hit
 }
 
 impl Property for C05 {
@@ -192,7 +225,7 @@ impl Property for C05 {
         // Known finding F19: a freshly named annotated expression that lands on a cycle becomes a
         // reference declaration, whose uses no longer see the annotations written on its body.
         if f19_site(&prog, &p2) {
-            r.label("excluded:F19-named-annotated-expression-becomes-recursive");
+            r.label("excluded:F19-fresh-declaration-on-a-cycle-with-annotations");
             r.hash = before.hash64();
             return r;
         }
